@@ -379,7 +379,7 @@ yprc_extension_instances(struct lys_ypr_ctx *pctx, enum ly_stmt substmt, uint8_t
 
     LY_ARRAY_FOR(exts, u) {
         if ((exts[u].parent_stmt != substmt) || (exts[u].parent_stmt_index != substmt_index)) {
-            return;
+            continue;
         }
 
         ypr_open(pctx->out, flag);
